@@ -82,7 +82,11 @@ def _tree(depth: int, rich: bool, clip: bool = False) -> st.SearchStrategy[Any]:
         return leaf
     sub = st.deferred(lambda: _tree(depth - 1, rich, clip))
     binary = st.tuples(st.sampled_from(ARITH), sub, sub).map(list)
-    options = [leaf, binary, binary, binary]
+    # X op1 (Y opx Z) op2 W: a group between two operators of a left-associative chain (with "random" parentheses the
+    # group's own operands nest further)
+    chain = st.tuples(st.sampled_from(ARITH), st.sampled_from(ARITH), st.sampled_from(ARITH), sub, sub, sub, sub).map(
+        lambda t: [t[1], [t[0], t[3], [t[2], t[4], t[5]]], t[6]])
+    options = [leaf, binary, binary, binary, chain] + ([] if rich else [chain, chain])
     if rich:
         # method-style operators are weighted up: chains like x.max(b).production().max(c) need several of
         # them in a row
@@ -133,7 +137,10 @@ def _case(draw: Any, pid: str, max_depth: int) -> dict[str, Any]:
         "route": route,
         "tree": tree,
         "rows": rows,
-        "style": draw(st.sampled_from(["minimal", "minimal", "redundant"])),
+        "style": draw(st.sampled_from(["minimal", "redundant", "random", "random"])),
+        # style "random": a sub-expression is wrapped in (redundant) parentheses where its bit is set, so that groups
+        # nest to any depth next to un-parenthesised operators
+        "paren_bits": draw(st.lists(st.booleans(), min_size=7, max_size=7)),
         "ws": draw(st.lists(st.sampled_from(["", " ", "  ", "\t", "\n"]), min_size=4, max_size=4)),
         "zeros": draw(st.lists(st.booleans(), min_size=NSTREAMS, max_size=NSTREAMS)) if pid == "C13"
         else [False] * NSTREAMS,
@@ -314,9 +321,11 @@ def _to_string(node: Any, case: dict[str, Any], parent: str | None = None, right
             text = f"({w()}{text}{w()})"
         return text
     op = node[0]
+    me = n[0]
     text = f"{_to_string(node[1], case, op, False, n)}{w()}{op}{w()}{_to_string(node[2], case, op, True, n)}"
     need = parent is not None and (PREC[op] < PREC[parent] or (PREC[op] == PREC[parent] and right))
-    if need or (case["style"] == "redundant" and n[0] % 2 == 0):
+    bits = case.get("paren_bits") or [False]
+    if need or (case["style"] == "redundant" and n[0] % 2 == 0) or (case["style"] == "random" and bits[me % len(bits)]):
         text = f"({w()}{text}{w()})"
     return text
 
